@@ -154,6 +154,8 @@ def classify(pid, res):
     if fail is None:
         return False, "final trees differ: " + str(res.get("tree"))
     ci = fail["impl"]
+    if ci is None:
+        return False, f"step {fail['step']} ({fail['op'].get('op')}): " + str(fail["reason"])
     if ci[0] in ("panic", "hang", "dead"):
         return True, f"call {fail['op']['op']} answered {ci[0]}: {ci[-1] if len(ci) > 1 else ''}"
     if not oracle.check_read_digest(fail["op"], ci):
